@@ -17,6 +17,10 @@ VERIF = os.path.dirname(os.path.dirname(os.path.abspath(__file__)))
 REPO = os.environ.get("VERIF_REPO", "/repo")
 SPEC = os.path.join(VERIF, "spec")
 HARNESS = os.path.join(VERIF, "harness")
+# Overrides used only by bin/mutcheck (running a check against a scratch copy of the repository
+# without disturbing /repo, the shared out/ tree or the committed evidence):
+OUTROOT = os.environ.get("VERIF_OUT", os.path.join(VERIF, "out"))
+EVIDENCE_DIR = os.environ.get("VERIF_EVIDENCE", os.path.join(VERIF, "evidence"))
 TLA_CP = "/opt/veriftools/tla/tla2tools.jar:/opt/veriftools/tla/CommunityModules-deps.jar"
 
 GOENV = {
@@ -355,10 +359,10 @@ class Ctx:
         self.tier = tier
         self.seed = seed
         self.t0 = time.time()
-        self.out = os.path.join(VERIF, "out", pid)
+        self.out = os.path.join(OUTROOT, pid)
         shutil.rmtree(self.out, ignore_errors=True)
         os.makedirs(self.out, exist_ok=True)
-        self.viol_dir = os.path.join(VERIF, "out", "violations")
+        self.viol_dir = os.path.join(OUTROOT, "violations")
         os.makedirs(self.viol_dir, exist_ok=True)
         self.states = 0
         self.transitions = 0
@@ -473,14 +477,22 @@ class Ctx:
     # ---------------------------------------------------------------- harness
     def build(self, cmd, tags=("verif",), race=False, timeout=1500):
         """Build harness/cmd/<cmd> from /repo's current working tree."""
+        harness = HARNESS
+        if REPO != "/repo":
+            # private copy of the harness module whose replace directive points at the scratch repository
+            harness = os.path.join(OUTROOT, "harness-alt")
+            if not os.path.exists(harness):
+                shutil.copytree(HARNESS, harness, ignore=shutil.ignore_patterns("go.sum"))
+                gm = open(os.path.join(harness, "go.mod")).read().replace("=> /repo", "=> " + REPO)
+                open(os.path.join(harness, "go.mod"), "w").write(gm)
         gosum_src = os.path.join(REPO, "go.sum")
-        gosum_dst = os.path.join(HARNESS, "go.sum")
+        gosum_dst = os.path.join(harness, "go.sum")
         try:
             if not os.path.exists(gosum_dst) or open(gosum_src, "rb").read() != open(gosum_dst, "rb").read():
                 shutil.copy(gosum_src, gosum_dst)
         except OSError:
             pass
-        bindir = os.path.join(VERIF, "out", "bin")
+        bindir = os.path.join(OUTROOT, "bin")
         os.makedirs(bindir, exist_ok=True)
         name = cmd + ("-" + "-".join(t for t in tags if t != "verif") if len(tags) > 1 else "") + ("-race" if race else "")
         binp = os.path.join(bindir, name)
@@ -489,7 +501,7 @@ class Ctx:
             args.append("-race")
         args.append("./cmd/" + cmd)
         t0 = time.time()
-        p = subprocess.run(args, cwd=HARNESS, env=goenv(), stdout=subprocess.PIPE, stderr=subprocess.STDOUT,
+        p = subprocess.run(args, cwd=harness, env=goenv(), stdout=subprocess.PIPE, stderr=subprocess.STDOUT,
                            timeout=timeout)
         if p.returncode != 0:
             raise Infra("harness build failed (%s):\n%s" % (" ".join(args), p.stdout.decode()[-4000:]))
@@ -700,8 +712,8 @@ class Ctx:
             "wall_s": round(wall, 1),
             "violations": len(self.violations),
         }
-        os.makedirs(os.path.join(VERIF, "evidence"), exist_ok=True)
-        with open(os.path.join(VERIF, "evidence", self.pid + ".json"), "w") as f:
+        os.makedirs(EVIDENCE_DIR, exist_ok=True)
+        with open(os.path.join(EVIDENCE_DIR, self.pid + ".json"), "w") as f:
             json.dump(ev, f, indent=1, sort_keys=True, default=str)
         log("%s %s seed=%d: states=%d execs=%d nontrivial=%d violations=%d known=%s wall=%.0fs" %
             (self.pid, self.tier, self.seed, self.states, self.execs, len(self.nontrivial),
